@@ -430,7 +430,7 @@ func c17Child(args []string) {
 
 func c17StorageRun(r *Rng, it int, vInit, aInit []byte, viol func(kind, what string, ops []string, _ any), count func(string), setTag func(string)) {
 	shifted := it%2 == 1
-	tsbd := uint64(r.Pick(4, 6, 10))
+	tsbd := uint64(r.Pick(4, 6, 10, 5, 7)) // also depths that are not a multiple of the 2 s segments
 	nSegs := r.Range(8, 16)
 	seq0 := uint32(r.Pick(1, 101, 5000))
 	off := uint64(0)
@@ -474,6 +474,8 @@ func c17StorageRun(r *Rng, it int, vInit, aInit []byte, viol func(kind, what str
 	}
 	// a late track: registered (init) from the start, its media only from lateFrom on — after the master has started
 	lateTrack, lateFrom := -1, 0
+	lateReported := false
+	lateStarted := false
 	if len(tracks) > 1 && r.Intn(2) == 0 {
 		lateTrack, lateFrom = 1+r.Intn(len(tracks)-1), r.Range(2, 5)
 		tag += fmt.Sprintf(" late track %s from segment %d", tracks[lateTrack].name, lateFrom)
@@ -481,6 +483,34 @@ func c17StorageRun(r *Rng, it int, vInit, aInit []byte, viol func(kind, what str
 	}
 	setTag(tag)
 	for k := 0; k < nSegs && !bad; k++ {
+		// at every moment the published MPD lists stored files only: checked after every single upload (an upload deletes the
+		// file that leaves the window before the next MPD is written) unless the MPD on disk is more than one round behind
+		checkListed := func(moment string) {
+			if bad || k < 3 {
+				return
+			}
+			lateName, lateFirst := "", 0
+			if lateTrack >= 0 {
+				lateName, lateFirst = tracks[lateTrack].name, int(seq0)+lateFrom+1
+			}
+			lf := lateFirst
+			if !lateStarted {
+				lf = 1 << 40
+			}
+			what, rep, nr := c17ListedStored(dir, int(seq0)+k-2, shifted, lateName, lf)
+			switch {
+			case what == "":
+			case rep == lateName && lateName != "" && (nr < lateFirst || !lateStarted):
+				if !lateReported {
+					viol("listed-late-track", fmt.Sprintf("%s: %s (the track registered with its init segment and sent its first media segment later)", moment, what), []string{tag}, nil)
+					lateReported = true
+				}
+			default:
+				viol("listed-not-stored", fmt.Sprintf("%s: %s", moment, what), []string{tag}, nil)
+				bad = true
+			}
+			count("receiver-mpd-checked")
+		}
 		for ti, t := range tracks {
 			if ti == lateTrack && k < lateFrom {
 				continue
@@ -503,8 +533,14 @@ func c17StorageRun(r *Rng, it int, vInit, aInit []byte, viol func(kind, what str
 			var buf bytes.Buffer
 			_ = f.Segments[0].Encode(&buf)
 			put(fmt.Sprintf("/upload/ch/%s/%d%s", t.name, inSeq0+uint32(k), t.ext), buf.Bytes())
+			if ti == lateTrack {
+				lateStarted = true
+			}
+			time.Sleep(3 * time.Millisecond)
+			checkListed(fmt.Sprintf("after the upload of %s/%d", t.name, inSeq0+uint32(k)))
 		}
-		time.Sleep(2 * time.Millisecond)
+		time.Sleep(15 * time.Millisecond)
+		checkListed(fmt.Sprintf("after round %d", k))
 	}
 	time.Sleep(80 * time.Millisecond) // the channel goroutine writes the MPD
 	count("receiver-storage-runs")
@@ -820,4 +856,58 @@ func c17GenMonitor(c *Ctx, line, out string) {
 		}
 	}
 	_ = sort.Ints
+}
+
+// c17ListedStored reads the timeline MPD on disk and the track directories: every listed number of every representation
+// must be a stored file.  minLast: skip when the MPD is older than that (the writer is asynchronous).
+func c17ListedStored(dir string, minLast int, shifted bool, lateName string, lateFirst int) (what, rep string, nr int) {
+	mb, err := os.ReadFile(filepath.Join(dir, "ch", "manifest_timeline_nr.mpd"))
+	if err != nil {
+		return "", "", 0
+	}
+	m, err := parseMPD(mb)
+	if err != nil || len(m.Periods) != 1 {
+		return "", "", 0
+	}
+	lateWhat, lateNr := "", 0
+	for i := range m.Periods[0].Sets {
+		as := &m.Periods[0].Sets[i]
+		if as.SegmentTemplate == nil || as.SegmentTemplate.StartNumber == nil {
+			continue
+		}
+		sn := int(*as.SegmentTemplate.StartNumber)
+		cnt := len(expandTL(as.SegmentTemplate))
+		if !shifted && sn+cnt-1 < minLast {
+			return "", "", 0
+		}
+		for _, rp := range as.Representations {
+			ents, err := os.ReadDir(filepath.Join(dir, "ch", rp.ID))
+			if err != nil {
+				continue
+			}
+			have := map[int]bool{}
+			for _, e := range ents {
+				if mm := regexp.MustCompile(`^(\d+)\.cmf[avt]$`).FindStringSubmatch(e.Name()); mm != nil {
+					n, _ := strconv.Atoi(mm[1])
+					have[n] = true
+				}
+			}
+			for n := sn; n < sn+cnt; n++ {
+				if !have[n] {
+					w := fmt.Sprintf("the timeline MPD lists %d..%d for %s but %d is not stored", sn, sn+cnt-1, rp.ID, n)
+					if rp.ID == lateName && n < lateFirst {
+						if lateWhat == "" {
+							lateWhat, lateNr = w, n
+						}
+						continue
+					}
+					return w, rp.ID, n
+				}
+			}
+		}
+	}
+	if lateWhat != "" {
+		return lateWhat, lateName, lateNr
+	}
+	return "", "", 0
 }
